@@ -83,13 +83,50 @@ def _worker_init(modname):
         raise
 
 
+class LenientOut(dict):
+    """outcome of a case whose execution was cut short by an exception of the code under test:
+    counters the check's run() loop may read default to 0 / empty"""
+
+    def __missing__(self, key):
+        return {} if key in ("hist", "kids") else [] if key in ("order_ids", "unverified") else 0
+
+
+def library_frame(e):
+    """innermost traceback frame inside the tree under test (None if the exception never passed through it)"""
+    root = str(env.REPO / "ceos_alos2") + os.sep
+    tb, hit = e.__traceback__, None
+    while tb is not None:
+        fn = tb.tb_frame.f_code.co_filename
+        if fn.startswith(root) and os.sep + "tests" + os.sep not in fn:
+            hit = f"{fn[len(root):]}:{tb.tb_frame.f_code.co_name}"
+        tb = tb.tb_next
+    return hit
+
+
 def _worker_call(args):
     modname, fname, idx, case = args
     mod = importlib.import_module(modname)
     try:
         out = getattr(mod, fname)(case)
-    except BaseException as e:  # harness bug, not a verdict
-        return idx, case, {"harness_error": "".join(traceback.format_exception(e))[-4000:]}
+    except HarnessError as e:
+        return idx, case, {"harness_error": str(e)}
+    except BaseException as e:
+        where = library_frame(e)
+        tb = e.__traceback__
+        while tb.tb_next is not None:
+            tb = tb.tb_next
+        in_harness = tb.tb_frame.f_code.co_filename.startswith(str(VERIF)) or "McFile" in str(e) or "McFS" in str(e)
+        if where is None or in_harness:  # harness bug (or a gap of the harness' filesystem), not a verdict
+            return idx, case, {"harness_error": "".join(traceback.format_exception(e))[-4000:]}
+        # an exception escaping from the library on an input the check considers valid is a verdict
+        text = "".join(traceback.format_exception(e))
+        out = LenientOut(
+            ok=False,
+            outcome=f"library-raises:{type(e).__name__}",
+            nontrivial=True,
+            failures=[{"sig": {"kind": "library-raises", "exc": type(e).__name__, "where": where}, "detail": f"unexpected {type(e).__name__} from {where}: {str(e)[:160]} | case {jkey(case)[:300]}"}],
+            traceback=text[-1500:],
+        )
     return idx, case, out
 
 
